@@ -15,7 +15,7 @@ def kind_of(v) -> str:
 
 
 class Obs:
-    __slots__ = ('kind', 'text', 'cells', 'render', 'payload', 'objs')
+    __slots__ = ('kind', 'text', 'cells', 'render', 'payload', 'objs', 'literal')
 
     def __init__(self, kind, text, cells, render, payload=None, objs=None):
         self.kind = kind
@@ -24,6 +24,7 @@ class Obs:
         self.render = render
         self.payload = payload
         self.objs = objs
+        self.literal = None
 
     def key(self):
         return (self.kind, self.text, self.cells, self.render, self.payload)
